@@ -13,6 +13,16 @@
 (*                   module escrows TOKENS and mints/burns the coin        *)
 (* each with 0-1 alias ("bridge") denomination "a" of the base coin "b".   *)
 (*                                                                         *)
+(* The externally-owned token is somebody else's contract.  Two traits of  *)
+(* an ordinary third-party ERC-20 are constants of the model:              *)
+(*   Soft    it signals a transfer it cannot make (balance, allowance,     *)
+(*           zero receiver) by RETURNING FALSE and changing nothing, as    *)
+(*           EIP-20 allows, instead of reverting;                          *)
+(*   Mortal  its owner can destroy it (Kill: SELFDESTRUCT).  `dead` = the  *)
+(*           pair's contract address has no code any more.  The first      *)
+(*           conversion message that passes the module's gate then DROPS   *)
+(*           the pair (record, three indexes) and moves nothing.           *)
+(*                                                                         *)
 (* RunProgram(p): p is a straight-line EVM program executed by a contract  *)
 (* ("exe") that HOLDS tokens, in ONE transaction.  Its meaning here is     *)
 (* what an EVM transaction means: every step acts on ONE shared state and  *)
@@ -33,6 +43,8 @@ CONSTANTS Kind,      \* "fx" | "module" | "external"
           StepSet,   \* alphabet of program steps: records [k, n]
           ProgLen,   \* maximal number of steps of a program (1..3)
           ProgSet,   \* "all" | "main" (without the known scenario) | "known" (only it) | "none"
+          Soft,      \* BOOLEAN (Kind = "external"): the token returns false instead of reverting
+          Mortal,    \* BOOLEAN (Kind = "external"): the token's owner can destroy the contract
           MaxConv, MaxTok, MaxGov, MaxProg   \* bounds on accepted operations per kind
 
 VARIABLES coin,      \* [Holder -> [Denom -> Nat]] bank balances
@@ -50,10 +62,12 @@ VARIABLES coin,      \* [Holder -> [Denom -> Nat]] bank balances
           calls,     \* value sitting in the eth module's outgoing bridge calls
           gift,      \* environment ledger: escrowed asset handed to the pair's escrow account gratuitously (a direct token
                      \* transfer to the module of an externally-owned pair; a conversion whose coin receiver is the wrapper)
+          dead,      \* the token contract was destroyed by its owner (no code at the pair's contract address)
+          lost,      \* environment ledger: token claims (balances outside the escrow) that existed when the owner destroyed the contract
           nconv, ntok, ngov, nprog,
           op         \* [name, by, u, r, n, k, p, res]
 
-svars == <<coin, csupply, tok, supply, allow, reg, enabled, byDenom, byToken, aliasIdx, mdAlias, pool, calls, gift,
+svars == <<coin, csupply, tok, supply, allow, reg, enabled, byDenom, byToken, aliasIdx, mdAlias, pool, calls, gift, dead, lost,
            nconv, ntok, ngov, nprog>>
 vars  == <<svars, op>>
 
@@ -69,7 +83,7 @@ Spender == {"u2", "exe", "pre"}                      \* pre = the crosschain pre
 
 Abs == [coin |-> coin, csupply |-> csupply, tok |-> tok, supply |-> supply, allow |-> allow, reg |-> reg,
         enabled |-> enabled, byDenom |-> byDenom, byToken |-> byToken, aliasIdx |-> aliasIdx, mdAlias |-> mdAlias,
-        pool |-> pool, calls |-> calls, gift |-> gift]
+        pool |-> pool, calls |-> calls, gift |-> gift, dead |-> dead, lost |-> lost]
 
 RECURSIVE SumSet(_, _)
 SumSet(S, f) == IF S = {} THEN 0 ELSE LET x == CHOOSE y \in S : TRUE IN f[x] + SumSet(S \ {x}, f)
@@ -80,6 +94,8 @@ Op(name, by, u, r, n, k, p, res) ==
   [name |-> name, by |-> by, u |-> u, r |-> r, n |-> n, k |-> k, p |-> p, res |-> res]
 
 TokenExists == Kind # "module" \/ reg      \* the module-owned contract is deployed by the registration
+Live        == TokenExists /\ ~dead        \* there is code at the token's address
+SoftFail    == Kind = "external" /\ Soft   \* a transfer the token cannot make returns false: the CALL itself succeeds
 
 Init ==
   /\ coin = [h \in Holder |-> [d \in Denom |->
@@ -98,7 +114,7 @@ Init ==
   /\ byToken = IF Kind = "fx" THEN "main" ELSE None
   /\ aliasIdx = [d \in Denom |-> None]
   /\ mdAlias = [d \in Denom |-> FALSE]
-  /\ pool = 0 /\ calls = 0 /\ gift = 0
+  /\ pool = 0 /\ calls = 0 /\ gift = 0 /\ dead = FALSE /\ lost = 0
   /\ nconv = 0 /\ ntok = 0 /\ ngov = 0 /\ nprog = 0
   /\ op = Op("Init", None, None, None, 0, None, <<>>, "ok")
 
@@ -111,13 +127,14 @@ Register(by) ==
   LET this == Op("Register", by, None, None, 0, None, <<>>, "ok")
       okk  == by = "gov" /\ ~reg /\ byDenom["b"] = None /\ byToken = None
               /\ \A d \in Denom : aliasIdx[d] = None
+              /\ ~dead                     \* the registration of an externally-owned token queries the contract
   IN IF ~okk THEN Rej(this) ELSE
      /\ reg' = TRUE /\ enabled' = TRUE
      /\ byDenom' = [byDenom EXCEPT !["b"] = "main"] /\ byToken' = "main"
      /\ aliasIdx' = [d \in Denom |-> IF d = "a" THEN "b" ELSE None]
      /\ mdAlias' = [d \in Denom |-> d = "a"]
      /\ ngov' = ngov + 1 /\ op' = this
-     /\ UNCHANGED <<coin, csupply, tok, supply, allow, pool, calls, gift, nconv, ntok, nprog>>
+     /\ UNCHANGED <<coin, csupply, tok, supply, allow, pool, calls, gift, dead, lost, nconv, ntok, nprog>>
 
 (* MsgToggleTokenConversion, pair addressed by denom or by token address *)
 Toggle(by, key) ==
@@ -125,7 +142,7 @@ Toggle(by, key) ==
       okk  == by = "gov" /\ reg /\ (IF key = "denom" THEN byDenom["b"] = "main" ELSE byToken = "main")
   IN IF ~okk THEN Rej(this) ELSE
      /\ enabled' = ~enabled /\ ngov' = ngov + 1 /\ op' = this
-     /\ UNCHANGED <<coin, csupply, tok, supply, allow, reg, byDenom, byToken, aliasIdx, mdAlias, pool, calls, gift, nconv, ntok, nprog>>
+     /\ UNCHANGED <<coin, csupply, tok, supply, allow, reg, byDenom, byToken, aliasIdx, mdAlias, pool, calls, gift, dead, lost, nconv, ntok, nprog>>
 
 (* MsgUpdateDenomAlias(denom = base, alias = al): adds the alias when unknown, removes it when it is *)
 (* the base's alias; al = "b" offers the base itself as alias (always refused).                      *)
@@ -136,17 +153,30 @@ UpdateAlias(by, al) ==
      /\ aliasIdx' = [aliasIdx EXCEPT ![al] = IF @ = None THEN "b" ELSE None]
      /\ mdAlias' = [mdAlias EXCEPT ![al] = aliasIdx[al] = None]
      /\ ngov' = ngov + 1 /\ op' = this
-     /\ UNCHANGED <<coin, csupply, tok, supply, allow, reg, enabled, byDenom, byToken, pool, calls, gift, nconv, ntok, nprog>>
+     /\ UNCHANGED <<coin, csupply, tok, supply, allow, reg, enabled, byDenom, byToken, pool, calls, gift, dead, lost, nconv, ntok, nprog>>
 
 ---------------------------------------------------------------------------
+(* A conversion message for a pair whose contract has been destroyed, once past the module's gate (pair found and  *)
+(* enabled, receiver not a module account): the pair is dropped - record, denom index, contract index and the      *)
+(* alias index entries of the aliases listed in the coin's metadata - the message is ACCEPTED and nothing moves.   *)
+(* (The bank metadata of the coin stays.)                                                                          *)
+Dropped(this) ==
+  /\ reg' = FALSE /\ enabled' = FALSE
+  /\ byDenom' = [byDenom EXCEPT !["b"] = None] /\ byToken' = None
+  /\ aliasIdx' = [d \in Denom |-> IF mdAlias[d] THEN None ELSE aliasIdx[d]]
+  /\ nconv' = nconv + 1 /\ op' = this
+  /\ UNCHANGED <<coin, csupply, tok, supply, allow, mdAlias, pool, calls, gift, dead, lost, ntok, ngov, nprog>>
+
 (* MsgConvertCoin: n base coins of u become n tokens of r *)
 ConvertCoin(u, n, r) ==
   LET this == Op("ConvertCoin", None, u, r, n, None, <<>>, "ok")
-      okk  == /\ reg /\ byDenom["b"] = "main" /\ enabled /\ coin[u]["b"] >= n
+      gate == reg /\ byDenom["b"] = "main" /\ enabled
               /\ r \notin Blocked          \* a module account is refused as receiver
+      okk  == /\ gate /\ coin[u]["b"] >= n
               /\ r # "zero"                \* the token refuses the zero address
               /\ (Kind = "external" => tok["mod"] >= n)
-  IN IF ~okk THEN Rej(this) ELSE
+  IN IF gate /\ dead THEN Dropped(this) ELSE
+     IF ~okk THEN Rej(this) ELSE
      /\ CASE Kind = "fx" ->          \* escrow, mint, escrow moved to the wrapper contract
                /\ coin' = [coin EXCEPT ![u]["b"] = @ - n, !["wrap"]["b"] = @ + n]
                /\ tok' = [tok EXCEPT ![r] = @ + n] /\ supply' = supply + n
@@ -158,15 +188,16 @@ ConvertCoin(u, n, r) ==
                /\ tok' = [tok EXCEPT !["mod"] = @ - n, ![r] = @ + n] /\ supply' = supply
      /\ csupply' = SupplyOf(coin')
      /\ nconv' = nconv + 1 /\ op' = this
-     /\ UNCHANGED <<allow, reg, enabled, byDenom, byToken, aliasIdx, mdAlias, pool, calls, gift, ntok, ngov, nprog>>
+     /\ UNCHANGED <<allow, reg, enabled, byDenom, byToken, aliasIdx, mdAlias, pool, calls, gift, dead, lost, ntok, ngov, nprog>>
 
 (* MsgConvertERC20: n tokens of u become n base coins of r *)
 ConvertERC20(u, n, r) ==
   LET this == Op("ConvertERC20", None, u, r, n, None, <<>>, "ok")
-      okk  == /\ reg /\ byToken = "main" /\ enabled /\ tok[u] >= n
-              /\ r \notin Blocked
+      gate == reg /\ byToken = "main" /\ enabled /\ r \notin Blocked
+      okk  == /\ gate /\ tok[u] >= n     \* the token refuses (by reverting or by returning false) to move more than u owns
               /\ (Kind = "fx" => coin["wrap"]["b"] >= n) /\ (Kind = "module" => coin["mod"]["b"] >= n)
-  IN IF ~okk THEN Rej(this) ELSE
+  IN IF gate /\ dead THEN Dropped(this) ELSE
+     IF ~okk THEN Rej(this) ELSE
      \* the wrapper named as coin receiver: the released escrow returns to the escrow account without tokens: a gift
      /\ gift' = gift + (IF Kind = "fx" /\ r = "wrap" THEN n ELSE 0)
      /\ CASE Kind = "fx" ->
@@ -180,7 +211,7 @@ ConvertERC20(u, n, r) ==
                /\ coin' = [coin EXCEPT ![r]["b"] = @ + n]
      /\ csupply' = SupplyOf(coin')
      /\ nconv' = nconv + 1 /\ op' = this
-     /\ UNCHANGED <<allow, reg, enabled, byDenom, byToken, aliasIdx, mdAlias, pool, calls, ntok, ngov, nprog>>
+     /\ UNCHANGED <<allow, reg, enabled, byDenom, byToken, aliasIdx, mdAlias, pool, calls, dead, lost, ntok, ngov, nprog>>
 
 (* MsgConvertDenom (sender = receiver): dir = "toAlias": n base -> alias (target "eth");            *)
 (* "toBase": n alias -> base (target "").  fx / external: base locked at the module, alias minted;  *)
@@ -203,7 +234,7 @@ ConvertDenom(u, n, dir) ==
                                          ELSE [coin EXCEPT ![u]["a"] = @ - n, !["mod"]["a"] = @ + n, ![u]["b"] = @ + n])
      /\ csupply' = SupplyOf(coin')
      /\ nconv' = nconv + 1 /\ op' = this
-     /\ UNCHANGED <<tok, supply, allow, reg, enabled, byDenom, byToken, aliasIdx, mdAlias, pool, calls, gift, ntok, ngov, nprog>>
+     /\ UNCHANGED <<tok, supply, allow, reg, enabled, byDenom, byToken, aliasIdx, mdAlias, pool, calls, gift, dead, lost, ntok, ngov, nprog>>
 
 (* wrapper contract only: deposit() with value n / withdraw(n) by an account *)
 Deposit(u, n) ==
@@ -214,7 +245,7 @@ Deposit(u, n) ==
      /\ tok' = [tok EXCEPT ![u] = @ + n] /\ supply' = supply + n
      /\ csupply' = SupplyOf(coin')
      /\ nconv' = nconv + 1 /\ op' = this
-     /\ UNCHANGED <<allow, reg, enabled, byDenom, byToken, aliasIdx, mdAlias, pool, calls, gift, ntok, ngov, nprog>>
+     /\ UNCHANGED <<allow, reg, enabled, byDenom, byToken, aliasIdx, mdAlias, pool, calls, gift, dead, lost, ntok, ngov, nprog>>
 
 Withdraw(u, n) ==
   LET this == Op("Withdraw", None, u, None, n, None, <<>>, "ok")
@@ -224,36 +255,48 @@ Withdraw(u, n) ==
      /\ tok' = [tok EXCEPT ![u] = @ - n] /\ supply' = supply - n
      /\ csupply' = SupplyOf(coin')
      /\ nconv' = nconv + 1 /\ op' = this
-     /\ UNCHANGED <<allow, reg, enabled, byDenom, byToken, aliasIdx, mdAlias, pool, calls, gift, ntok, ngov, nprog>>
+     /\ UNCHANGED <<allow, reg, enabled, byDenom, byToken, aliasIdx, mdAlias, pool, calls, gift, dead, lost, ntok, ngov, nprog>>
 
 ---------------------------------------------------------------------------
-(* direct token calls by accounts (real EVM transactions) *)
+(* direct token calls by accounts (real EVM transactions); "rej" = the transaction reverted or the token answered *)
+(* anything but true (a Soft token answers false; an address without code answers nothing)                       *)
 Transfer(u, r, n) ==
   LET this == Op("Transfer", None, u, r, n, None, <<>>, "ok")
-      okk  == TokenExists /\ tok[u] >= n /\ r # "zero"
+      okk  == Live /\ tok[u] >= n /\ r # "zero"
   IN IF ~okk THEN Rej(this) ELSE
      /\ tok' = [tok EXCEPT ![u] = @ - n, ![r] = @ + n]
      \* tokens sent straight to the escrow account of an externally-owned pair back no coin: a gift
      /\ gift' = gift + (IF Kind = "external" /\ r = "mod" THEN n ELSE 0)
      /\ ntok' = ntok + 1 /\ op' = this
-     /\ UNCHANGED <<coin, csupply, supply, allow, reg, enabled, byDenom, byToken, aliasIdx, mdAlias, pool, calls, nconv, ngov, nprog>>
+     /\ UNCHANGED <<coin, csupply, supply, allow, reg, enabled, byDenom, byToken, aliasIdx, mdAlias, pool, calls, dead, lost, nconv, ngov, nprog>>
 
 Approve(o, s, n) ==
   LET this == Op("Approve", None, o, s, n, None, <<>>, "ok")
-  IN IF ~TokenExists THEN Rej(this) ELSE
+  IN IF ~Live THEN Rej(this) ELSE
      /\ allow' = [allow EXCEPT ![o][s] = n]
      /\ ntok' = ntok + 1 /\ op' = this
-     /\ UNCHANGED <<coin, csupply, tok, supply, reg, enabled, byDenom, byToken, aliasIdx, mdAlias, pool, calls, gift, nconv, ngov, nprog>>
+     /\ UNCHANGED <<coin, csupply, tok, supply, reg, enabled, byDenom, byToken, aliasIdx, mdAlias, pool, calls, gift, dead, lost, nconv, ngov, nprog>>
 
 (* transferFrom(u1, u2, n) sent by u2 *)
 TransferFrom(n) ==
   LET this == Op("TransferFrom", None, "u2", "u1", n, None, <<>>, "ok")
-      okk  == TokenExists /\ allow["u1"]["u2"] >= n /\ tok["u1"] >= n
+      okk  == Live /\ allow["u1"]["u2"] >= n /\ tok["u1"] >= n
   IN IF ~okk THEN Rej(this) ELSE
      /\ allow' = [allow EXCEPT !["u1"]["u2"] = @ - n]
      /\ tok' = [tok EXCEPT !["u1"] = @ - n, !["u2"] = @ + n]
      /\ ntok' = ntok + 1 /\ op' = this
-     /\ UNCHANGED <<coin, csupply, supply, reg, enabled, byDenom, byToken, aliasIdx, mdAlias, pool, calls, gift, nconv, ngov, nprog>>
+     /\ UNCHANGED <<coin, csupply, supply, reg, enabled, byDenom, byToken, aliasIdx, mdAlias, pool, calls, gift, dead, lost, nconv, ngov, nprog>>
+
+(* kill() sent by the token's owner ("owner") or by somebody else: SELFDESTRUCT of an externally-owned token. *)
+(* Every balance, the total supply and every allowance are gone with the contract's storage.                 *)
+Kill(by) ==
+  LET this == Op("Kill", by, None, None, 0, None, <<>>, "ok")
+      okk  == Kind = "external" /\ Mortal /\ ~dead /\ by = "owner"
+  IN IF ~okk THEN Rej(this) ELSE
+     /\ dead' = TRUE /\ lost' = lost + SumSet(Holder \ {"mod"}, tok)
+     /\ tok' = [h \in Holder |-> 0] /\ supply' = 0 /\ allow' = [o \in Owner |-> [s \in Spender |-> 0]]
+     /\ op' = this
+     /\ UNCHANGED <<coin, csupply, reg, enabled, byDenom, byToken, aliasIdx, mdAlias, pool, calls, gift, nconv, ntok, ngov, nprog>>
 
 ---------------------------------------------------------------------------
 (* PROGRAMS.  A step is [k, n]:                                            *)
@@ -262,7 +305,10 @@ TransferFrom(n) ==
 (*  cc  precompile.crossChain(token, dest, n, fee 0, "eth")                *)
 (*  bc  precompile.bridgeCall("eth", refund exe, [token], [n], ...)        *)
 (*  rv  REVERT (last step only)                                            *)
-(* all executed by the contract exe in one transaction.                    *)
+(* all executed by the contract exe in one transaction.  exe propagates   *)
+(* the failure of a CALL, it does not look at what the callee returns: a   *)
+(* Soft token's refused transfer, and any call to a destroyed token, is a  *)
+(* successful CALL that changes nothing.                                   *)
 Rv == [k |-> "rv", n |-> 0]
 Bodies == (IF ProgLen >= 1 THEN {<<a>> : a \in StepSet} ELSE {})
           \cup (IF ProgLen >= 2 THEN {<<a, b>> : a, b \in StepSet} ELSE {})
@@ -304,18 +350,20 @@ Redeem(s, n) ==
 
 Exec(s, st) ==
   LET n == st.n IN
-  CASE st.k = "tr" -> IF s.tok["exe"] >= n THEN [s EXCEPT !.tok = [@ EXCEPT !["exe"] = @ - n, !["u2"] = @ + n]] ELSE Fail(s)
+  CASE st.k \in {"tr", "ap", "tf"} /\ dead -> s          \* no code at the address: the CALL succeeds and does nothing
+    [] st.k = "tr" -> IF s.tok["exe"] >= n THEN [s EXCEPT !.tok = [@ EXCEPT !["exe"] = @ - n, !["u2"] = @ + n]]
+                      ELSE IF SoftFail THEN s ELSE Fail(s)
     [] st.k = "ap" -> [s EXCEPT !.allow = [@ EXCEPT !["exe"]["pre"] = n]]
     [] st.k = "tf" -> IF s.allow["u1"]["exe"] >= n /\ s.tok["u1"] >= n
                       THEN [s EXCEPT !.allow = [@ EXCEPT !["u1"]["exe"] = @ - n], !.tok = [@ EXCEPT !["u1"] = @ - n, !["exe"] = @ + n]]
-                      ELSE Fail(s)
+                      ELSE IF SoftFail THEN s ELSE Fail(s)
     \* crossChain: transferFrom(exe -> module) by the precompile through the running EVM (needs the allowance),
     \* conversion, outgoing pool entry.  (The pair's enabled flag is not consulted on this path.)
-    [] st.k = "cc" -> IF s.allow["exe"]["pre"] >= n /\ CanRedeem(s, n)
+    [] st.k = "cc" -> IF ~dead /\ s.allow["exe"]["pre"] >= n /\ CanRedeem(s, n)
                       THEN LET r == Redeem(s, n) IN [r EXCEPT !.allow = [@ EXCEPT !["exe"]["pre"] = @ - n], !.pool = @ + n]
                       ELSE Fail(s)
     \* bridgeCall: MsgConvertERC20(exe -> exe) (needs the pair enabled, no allowance), outgoing bridge call
-    [] st.k = "bc" -> IF enabled /\ CanRedeem(s, n)
+    [] st.k = "bc" -> IF ~dead /\ enabled /\ CanRedeem(s, n)
                       THEN LET r == Redeem(s, n) IN [r EXCEPT !.calls = @ + n]
                       ELSE Fail(s)
     [] OTHER -> Fail(s)     \* rv
@@ -330,7 +378,7 @@ RunProgram(p) ==
      /\ tok' = r.tok /\ supply' = r.supply /\ allow' = r.allow /\ coin' = r.coin /\ pool' = r.pool /\ calls' = r.calls
      /\ csupply' = SupplyOf(coin')
      /\ nprog' = nprog + 1 /\ op' = this
-     /\ UNCHANGED <<reg, enabled, byDenom, byToken, aliasIdx, mdAlias, gift, nconv, ntok, ngov>>
+     /\ UNCHANGED <<reg, enabled, byDenom, byToken, aliasIdx, mdAlias, gift, dead, lost, nconv, ntok, ngov>>
 
 Probe == op' = Op("Probe", None, None, None, 0, None, <<>>, "ok") /\ UNCHANGED svars
 
@@ -342,6 +390,7 @@ Next ==
   \/ \E u \in User, n \in Amt : \E r \in TRecvSet \ {u} : Transfer(u, r, n)
   \/ \E s \in {"exe", "u2"}, n \in Amt : Approve("u1", s, n)
   \/ \E p \in Programs : RunProgram(p)
+  \/ (Mortal /\ \E by \in {"owner", "u1"} : Kill(by))
   \/ Probe
 
 Spec == Init /\ [][Next]_vars
@@ -359,8 +408,9 @@ C08_EscrowEqualsSupply ==
 
 \* externally-owned token: tokens escrowed by the module = supply of its coin over base + every bridge denomination
 \* (coins in the module's OWN account are its custody of converted denominations, not claims on the escrow)
+\* (as long as the token exists: its owner destroying the contract destroys the escrow with it)
 C08_LockedEqualsCoinSupply ==
-  Kind = "external" => tok["mod"] = SumSet(Denom, [d \in Denom |-> csupply[d] - coin["mod"][d]]) + gift
+  Kind = "external" /\ ~dead => tok["mod"] = SumSet(Denom, [d \in Denom |-> csupply[d] - coin["mod"][d]]) + gift
 
 \* every ERC-20's balances sum to its total supply
 C08_BalancesSumToSupply == SumTok(tok) = supply
@@ -373,17 +423,21 @@ C08_CoinsAccounted == \A d \in Denom : csupply[d] = SumSet(Holder, [h \in Holder
 \* holders of claims: everybody except the escrow account of the respective asset and the bridge module's coin custody
 TokH  == IF Kind = "external" THEN Holder \ {"mod"} ELSE Holder
 CoinH == (Holder \ {"mod", "eth"}) \ (IF Kind = "fx" THEN {"wrap"} ELSE {})
-TotalValue == SumSet(TokH, tok) + SumSet(CoinH, [h \in CoinH |-> SumSet(Denom, coin[h])]) + pool + calls + gift
+\* (`lost`: the token claims that went down with a contract its owner destroyed)
+TotalValue == SumSet(TokH, tok) + SumSet(CoinH, [h \in CoinH |-> SumSet(Denom, coin[h])]) + pool + calls + gift + lost
 C08_ValueConserved == TotalValue = InitU1 + InitU2
 
 \* the denom, contract and alias indexes describe the same set of pairs
+\* (an index entry that survives its pair - pointing to no pair record - is as wrong as a pair missing from an index;
+\* the alias list in the coin's bank metadata is what the alias index is built from: they agree for a registered pair and,
+\* unless the pair was dropped because its contract was destroyed, the metadata lists no alias of an unregistered coin)
 C08_IndexesAgree ==
-  /\ reg <=> byDenom["b"] = "main"
-  /\ reg <=> byToken = "main"
+  /\ byDenom["b"] = (IF reg THEN "main" ELSE None)
+  /\ byToken = (IF reg THEN "main" ELSE None)
   /\ ~reg => ~enabled
   /\ \A d \in Denom \ {"b"} : byDenom[d] = None
   /\ \A d \in Denom : aliasIdx[d] # None => reg /\ d # "b" /\ aliasIdx[d] = "b"
-  /\ \A d \in Denom : mdAlias[d] <=> aliasIdx[d] = "b"
+  /\ (reg \/ ~dead) => \A d \in Denom : mdAlias[d] <=> aliasIdx[d] = "b"
 
 \* a conversion moves exactly the requested amount from sender to receiver and nothing else: among the holders of
 \* claims (TokH, CoinH) only the sender's and the receiver's holdings change, by exactly n; the one exception is a
@@ -391,14 +445,17 @@ C08_IndexesAgree ==
 RTok(t)  == [h \in TokH |-> t[h]]
 RCoin(c) == [h \in CoinH |-> c[h]]
 Same(o) == allow' = allow /\ pool' = pool /\ calls' = calls /\ coin'["eth"] = coin["eth"]
+\* a conversion message accepted although the pair's contract no longer exists converts nothing: no coin, no token moves
+NothingMoves == coin' = coin /\ csupply' = csupply /\ tok' = tok /\ supply' = supply /\ gift' = gift /\ lost' = lost
 A_C08_MovesExactly ==
   LET o == op' IN
-  /\ (o.name = "ConvertCoin" /\ o.res = "ok") =>
+  /\ (o.name \in {"ConvertCoin", "ConvertERC20"} /\ o.res = "ok" /\ dead) => NothingMoves /\ Same(o)
+  /\ (o.name = "ConvertCoin" /\ o.res = "ok" /\ ~dead) =>
         /\ o.u \in CoinH /\ o.r \in TokH
         /\ RCoin(coin') = [RCoin(coin) EXCEPT ![o.u]["b"] = @ - o.n]
         /\ RTok(tok') = [RTok(tok) EXCEPT ![o.r] = @ + o.n]
         /\ gift' = gift /\ Same(o)
-  /\ (o.name = "ConvertERC20" /\ o.res = "ok") =>
+  /\ (o.name = "ConvertERC20" /\ o.res = "ok" /\ ~dead) =>
         /\ o.u \in TokH
         /\ RTok(tok') = [RTok(tok) EXCEPT ![o.u] = @ - o.n]
         /\ IF o.r \in CoinH THEN RCoin(coin') = [RCoin(coin) EXCEPT ![o.r]["b"] = @ + o.n] /\ gift' = gift
@@ -411,7 +468,7 @@ A_C08_MovesExactly ==
 C08_MovesExactly == [][A_C08_MovesExactly]_vars
 
 \* a refused operation (in particular a refused conversion or a reverted contract transaction) changes nothing
-A_C08_RefusedChangesNothing == op'.res = "rej" => UNCHANGED <<coin, csupply, tok, supply, allow, reg, enabled, byDenom, byToken, aliasIdx, mdAlias, pool, calls, gift>>
+A_C08_RefusedChangesNothing == op'.res = "rej" => UNCHANGED <<coin, csupply, tok, supply, allow, reg, enabled, byDenom, byToken, aliasIdx, mdAlias, pool, calls, gift, dead, lost>>
 C08_RefusedChangesNothing == [][A_C08_RefusedChangesNothing]_vars
 
 ---------------------------------------------------------------------------
